@@ -1602,7 +1602,7 @@ class GenerativeFunctionClosure(Generic[R], GenerativeFunction[R]):
 
     def __abstract_call__(self, *args, **kwargs) -> R:
         full_args = self.args + args
-        full_kwargs = kwargs | self.kwargs
+        full_kwargs = self.kwargs | kwargs
 
         if full_kwargs:
             kwarg_fn = self._with_kwargs()
